@@ -77,6 +77,7 @@ Step(e) ==
     [] e.a = "PendPop"       -> LET M == {q \in pend : q.n = e.n /\ q.kind = e.kind /\ q.cid = e.cid /\ q.due <= now} IN
                                   \* the oldest matching sleeper wakes first (keeps the trace spec deterministic)
                                   M # {} /\ PendPop(CHOOSE q \in M : \A q2 \in M : q.k <= q2.k)
+    [] e.a = "JoinResume"    -> \E q \in pend : q.kind = "join" /\ q.n = e.n /\ q.cid = e.cid /\ q.k = e.k /\ JoinResume(q)
     [] e.a = "RetryTimeout"  -> RetryTimeout(e.n, e.cid)
     [] e.a = "CacheTimeout"  -> CacheTimeout(e.n, e.kind, e.k)
     [] e.a = "Tamper"        -> \E d \in net : d.id = e.id /\ Tamper(d)
